@@ -386,6 +386,20 @@ def c07_defaults(run):
                     acc.fail(key + " [python]", f"generated module failed: {type(e).__name__}: {e}")
         # after all of the above has been parsed in this process: schemas that declare no default carry none (no default leaks
         # from one parse into another through shared state)
+        for primer in [{"default": 0, "allOf": [{}]}, {"default": False, "oneOf": [True]}, {"default": 1, "anyOf": []}, {"default": None, "allOf": [{}, True]},
+                       {"default": "d", "not": {"not": {}}}, {"default": [1], "allOf": [{}], "anyOf": [{}], "oneOf": [{}]}]:
+            key = "default next to trivial composition: " + jkey(primer)
+            acc.case(key)
+            try:
+                E = parse_element(copy.deepcopy(primer))
+                d_ = getattr(E, "default", NotPassed())
+                if isinstance(d_, NotPassed) or not pyspec.same(d_, primer["default"]):
+                    inner = [x for x in getattr(E, "elements", []) if not isinstance(getattr(x, "default", NotPassed()), NotPassed)]
+                    if not (inner and pyspec.same(inner[0].default, primer["default"])):
+                        acc.fail(key, f"declared default {primer['default']!r} not on the parsed element {E!r}")
+            except Exception as e:
+                if "not" not in primer:
+                    acc.fail(key, f"{type(e).__name__}: {e}")
         for clean in [{"anyOf": [{"type": "string"}, {"type": "integer"}]}, {"allOf": [{}]}, {"oneOf": [True]}, {"not": {"type": "null"}}, {"anyOf": [{}]},
                       {"allOf": [{"type": "string"}], "minLength": 1}, {"type": ["string", "null"]}, {"type": "object", "title": "Clean", "properties": {"p": {"oneOf": [{}, {"type": "null"}]}}},
                       {"type": "string"}, {}, {"items": {"anyOf": [True]}}]:
